@@ -568,6 +568,11 @@ def _lab_plans(ctx):
         {"id": "replicas_explicit", "world": s % 1000 + 3, "cfg": {"data_type": "nanopore", "read_group": "file_name", "count_exons": True},
          "specs": [E("R", s + 5, 0.4, 1, files=2), E("S", s + 6, 0.4, 0)], "orders": "all", "threads": [1, 2],
          "yaml_orders": 0, "trace": False},
+        # exactly duplicated BAM records: 8 in one experiment, 3 in the other (MultimapResolver.duplicate_counter
+        # passes its "5th duplicate" threshold in the first / only in the joint run)
+        {"id": "dups", "world": s % 1000 + 5, "cfg": {"data_type": "nanopore"},
+         "specs": [E("D", s + 9, 0.4, 0, dups=8, depth=[6, 9]), E("F", s + 10, 0.4, 1, dups=3, depth=[6, 9])],
+         "orders": "all", "threads": [1, 2], "yaml_orders": 1, "trace": True},
         # annotation-free mode (no combined tables, no known isoforms)
         {"id": "nogenedb", "world": s % 1000 + 4, "cfg": {"data_type": "pacbio", "genedb": False},
          "specs": [E("U", s + 7, 1.0, 1), E("V", s + 8, 0.0, 2)], "orders": "all", "threads": [1, 2], "yaml_orders": 1,
